@@ -23,6 +23,7 @@ type c02Msg struct {
 	Reject   bool   `json:"rejected_by_hook"`
 	SendBody bool   `json:"client_sends_body"`
 	WaitMs   int    `json:"client_waits_ms"`
+	Trailer  string `json:"chunked_trailer,omitempty"`
 }
 
 type c02Conn struct {
@@ -108,7 +109,9 @@ func scenC02(e *Env) func() {
 				raw := smuggled(fmt.Sprintf("%d-%d", ci, mi), m.BodyLen)
 				if m.Chunked {
 					head.WriteString("Transfer-Encoding: chunked\r\n")
-					body = chunkedEncode(e, raw, "plain")
+					tv := Pick(e, "plain", "plain", "plain", "trailer", "forbidden-trailer", "request-trailer", "bad-trailer")
+					c.Msgs[len(c.Msgs)-1].Trailer = tv
+					body = chunkedEncode(e, raw, tv)
 				} else {
 					fmt.Fprintf(&head, "Content-Length: %d\r\n", m.BodyLen)
 					body = raw
@@ -259,8 +262,14 @@ func c02Judge(e *Env, k *ServerKit, p *c02Plan, ci int, c c02Conn, ex *Exchange,
 			e.Violation("smuggled/"+strings.TrimPrefix(ctxOf(src), "after-"), "conn %d: the handler was invoked for %s %s, which is not a request the client sent (bytes of the body of message %d were parsed as a request); plan=%+v", ci, inv.Method, inv.URI, last+1, c.Msgs)
 			return
 		}
+		for j := 0; j < i; j++ {
+			if t := c.Msgs[j].Trailer; t == "forbidden-trailer" || t == "request-trailer" || t == "bad-trailer" {
+				e.Violation("dispatched-after-bad-trailer/"+t, "conn %d: %s was dispatched although the chunked body of the earlier message %s ends in a malformed trailer section (%s)", ci, inv.URI, c.Msgs[j].Target, t)
+				return
+			}
+		}
 		if i <= last {
-			e.Violation("order", "conn %d: invocation for %s came after message %d", ci, inv.URI, last)
+			e.Violation("order","conn %d: invocation for %s came after message %d", ci, inv.URI, last)
 			return
 		}
 		for j := last + 1; j < i; j++ {
@@ -278,6 +287,13 @@ func c02Judge(e *Env, k *ServerKit, p *c02Plan, ci int, c c02Conn, ex *Exchange,
 		got, full := seen[inv.URI], complete[inv.URI]
 		k.mu.Unlock()
 		want := smuggled(strings.TrimPrefix(m.Target, "/m-"), m.BodyLen)
+		if m.Trailer == "forbidden-trailer" || m.Trailer == "request-trailer" || m.Trailer == "bad-trailer" {
+			// the body's framing is malformed at its very end: what the handler
+			// gets for it is unspecified (PostBody returns the read error's
+			// text); the obligation is that nothing after it is dispatched
+			last = i
+			continue
+		}
 		if full && !bytes.Equal(got, want) {
 			e.Violation("body", "conn %d: handler of %s read a %d-byte body, the client sent %d bytes (first diff at %d)", ci, inv.URI, len(got), len(want), firstDiff(got, want))
 			return
